@@ -44,9 +44,17 @@ func NewProxy(backendAddr multiaddr.Multiaddr) *Proxy {
 	return p
 }
 
-func (p *Proxy) Addr() multiaddr.Multiaddr {
-	hp := strings.Split(strings.TrimPrefix(p.srv.URL, "http://"), ":")
-	return multiaddr.StringCast("/ip4/" + hp[0] + "/tcp/" + hp[1] + "/http")
+func (p *Proxy) Addr() multiaddr.Multiaddr { return HTTPAddr(p.srv.URL) }
+
+// HTTPAddr turns the URL of a test server ("http://127.0.0.1:port") into the multiaddr of that endpoint.  When the IPv4 loopback
+// has no port left to listen on (tens of thousands of sockets in TIME_WAIT after many runs in a row), httptest falls back on
+// "[::1]:port"; the runs are not set up for that, so this is an infrastructure failure (the shard stops; the check exits 2).
+func HTTPAddr(serverURL string) multiaddr.Multiaddr {
+	host, port, err := net.SplitHostPort(strings.TrimPrefix(serverURL, "http://"))
+	if err != nil || strings.Contains(host, ":") {
+		panic("infrastructure: no IPv4 loopback port available for a test server (got " + serverURL + "); too many sockets in TIME_WAIT -- run fewer checks at once")
+	}
+	return multiaddr.StringCast("/ip4/" + host + "/tcp/" + port + "/http")
 }
 
 // Reset starts a new request numbering (a new sync).
